@@ -213,13 +213,14 @@ def pool_timeout_scenarios(draw):
             "holders": n_hold, "waiters": waiters,
             "advances": draw(st.lists(st.sampled_from([0.3, 0.7, 1.1, 2.3, 5.0]), max_size=6)),
             "choices": draw(st.lists(st.integers(0, 9), max_size=60)), "runtime": draw(st.sampled_from(["asyncio", "trio"])),
-            "late": draw(st.sampled_from([[], [], [1], [0, 1], [0, 0, 1], [1, 0, 0, 0]]))}
+            "late": draw(st.sampled_from([[], [], [1], [0, 1], [0, 0, 1], [1, 0, 0, 0]])), "share_timeouts": draw(st.booleans())}
 
 
 def execute_pool_timeout(sc) -> Outcome:
     pool_cfg, cfg, scheme = topo(sc["kind"], pool_extra={"max_connections": sc["holders"]})
     world = World(peer_factory=cfg.peer_factory)
     callers = []
+    shared_dicts = {}
     for i in range(sc["holders"]):
         c = Caller(len(callers), [{"spec": {"method": "GET", "url": f"{scheme}://a.test/t/h{i}"}, "tok": f"h{i}", "mode": "hold"}])
         c.start_first = True
@@ -228,6 +229,9 @@ def execute_pool_timeout(sc) -> Outcome:
         spec = {"method": "GET", "url": f"{scheme}://{w['host']}/t/w{j}"}
         if w["p"] is not None:
             spec["timeouts"] = {"pool": w["p"]}
+            if sc.get("share_timeouts"):
+                # the caller keeps ONE timeout dictionary per configuration and passes the same object with every request
+                spec["timeouts_obj"] = shared_dicts.setdefault(w["p"], {"pool": w["p"]})
         callers.append(Caller(len(callers), [{"spec": spec, "tok": f"w{j}", "mode": "read_all"}]))
     final = {}
 
@@ -312,6 +316,12 @@ def execute_pool_timeout(sc) -> Outcome:
                     vio.append(V(P, "served-after-deadline", f"{what}: waiter {j} was given a connection {wait:.6f}s after it asked, later than its pool timeout {p}", conn=sc["kind"]))
                 if abs(wait - p) < 0.5 and wait > 0:
                     close_call = True
+    for p_, d_ in shared_dicts.items():
+        if d_ != {"pool": p_}:
+            vio.append(V(P, "pool-timeout-early", f"{what}: the timeout dictionary {{'pool': {p_}}} that the caller passes with every request was changed by the library to "
+                         f"{d_!r}: later requests that are configured with it no longer wait for their pool timeout", conn=sc["kind"], via="caller-dict-changed"))
+    if shared_dicts:
+        tags.append("shared-timeout-dict")
     if r.deadlock is not None:
         vio.append(V(P, "deadlock", f"{what}: {r.deadlock}", conn=sc["kind"]))
     if final.get("repr") and "Requests: 0 active, 0 queued" not in final["repr"] and r.deadlock is None:
